@@ -2593,6 +2593,18 @@ class PathSum(object):
             # lock.acquire(); try: ... finally: lock.release()  is
             # `with lock:`
             if fn[2] == 'acquire':
+                if args and args[0] != TRUE:
+                    # non-blocking / timed: the lock may not be obtained
+                    miss = st.fork()
+                    res = ('call', fn, tuple(args), (), next(self.uid))
+                    a, pol = self.atom(res)
+                    st.conds.append((a, pol, node))
+                    st.cond_held.append(tuple(st.held))
+                    miss.conds.append((a, not pol, node))
+                    miss.cond_held.append(tuple(miss.held))
+                    self.emit(st, Ev('enter', node, fi, st, ctx=fn[1]))
+                    st.held.append(fn[1])
+                    return [(st, TRUE), (miss, const(False))]
                 self.emit(st, Ev('enter', node, fi, st, ctx=fn[1]))
                 st.held.append(fn[1])
                 return [(st, TRUE)]
